@@ -18,6 +18,9 @@ RULE = {
 }
 
 
+FAMS_SYM = "antiprism:4,antiprism:5,antiprism:6,prism:4,prism:5,prism:6,prism:7,mobius:4,mobius:5,mobius:6,mobius:7,petersen,cube:3,Kb:3:3,wheel:6,torus:3:3"
+
+
 def lcg_menu(ns, ratios, seeds):
     return ",".join("lcg:%d:%d:%d" % (n, int(n * r), s) for n in ns for r in ratios for s in range(seeds))
 
@@ -30,6 +33,7 @@ def runs(prop, tier):
          ("blob grammar K=3,T=2 x patterns U, M3, k in {%s}" % ks_q, [["--grammar", "blobs:3:2", "--alpha", a, "--ks", ks_q] for a in ("U", "M3")]),
          ("dense families x U", [["--families", "K:6,K:7,wheel:6,prism:4,petersen,Kb:3:4,grid:3:4,cube:3", "--alpha", "U", "--ks", ks_q]]),
          ("G(5) x {1,100} (extreme weight ratio)", [["--n", 5, "--alpha", "H2", "--ks", ks_q]]),
+         ("symmetric families under 30 renumberings x U, M2", [["--families", FAMS_SYM, "--relabel", 30, "--alpha", a, "--ks", ks_q] for a in ("U", "M2")]),
          ("G(5) with at most 6 edges x PM2 (every assignment of distinct powers of two), k in {%s}" % ks_q, [["--n", 5, "--alpha", "PM2", "--max-m", 6, "--ks", ks_q]]),
          ("edge orientation reversed / alternating: G(0..4) x A3, G(5) x A2", [["--n", n, "--alpha", "A3", "--ks", ks_q, "--orient", o] for n in range(2, 5) for o in (1, 2)] + [["--n", 5, "--alpha", "A2", "--ks", ks_q, "--orient", 1]]),
          ("theta graphs with chords (11 vertices, many non-spanner edges competing for one heavy edge): edge #0 = 1000, every other edge over {1,2}, both orientations",
